@@ -163,10 +163,11 @@ func (m *confModel) render(l layout) string {
 				}
 			}
 			if m.tktEnc != nil {
-				sep := " "
-				rel("default_tkt_enctypes", strings.Join(m.tktEnc, sep))
-				rel("default_tgs_enctypes", strings.Join(m.tktEnc, "  "))
-				rel("permitted_enctypes", strings.Join(m.tktEnc, " "))
+				// the names of a list are separated by white space of any kind
+				seps := []string{" ", "\t", "  ", " \t ", "\t\t"}
+				rel("default_tkt_enctypes", strings.Join(m.tktEnc, seps[l.r.Intn(len(seps))]))
+				rel("default_tgs_enctypes", strings.Join(m.tktEnc, seps[l.r.Intn(len(seps))]))
+				rel("permitted_enctypes", strings.Join(m.tktEnc, seps[l.r.Intn(len(seps))]))
 			}
 		},
 		func() {
@@ -464,9 +465,11 @@ func c16File(v *Verdict, rng *RNG, idx int) {
 				want = append(want, id)
 			}
 		}
-		if fmt.Sprint(ld.DefaultTktEnctypeIDs) != fmt.Sprint(want) && !(len(want) == 0 && len(ld.DefaultTktEnctypeIDs) == 0) {
-			fail("enctypes", "default_tkt_enctypes does not hold the documented enctypes", fmt.Sprintf("%v: got %v want %v", mdl.tktEnc, ld.DefaultTktEnctypeIDs, want))
-			return
+		for which, got := range map[string][]int32{"default_tkt_enctypes": ld.DefaultTktEnctypeIDs, "default_tgs_enctypes": ld.DefaultTGSEnctypeIDs, "permitted_enctypes": ld.PermittedEnctypeIDs} {
+			if fmt.Sprint(got) != fmt.Sprint(want) && !(len(want) == 0 && len(got) == 0) {
+				fail("enctypes", which+" does not hold the documented enctypes", fmt.Sprintf("%v: got %v want %v", mdl.tktEnc, got, want))
+				return
+			}
 		}
 	}
 	if len(cfg.Realms) != len(mdl.realms) {
@@ -935,6 +938,11 @@ func c16Resolve(m *Model, v *Verdict, rng *RNG) {
 				}
 			}
 			v.Case(fmt.Sprintf("resolve/%d/%s", mask, h), "resolve")
+			// the same name written with the root dot at its end is the same host
+			if gotDot := cfg.ResolveRealm(h + "."); gotDot != want {
+				v.Violate("failing-input", "c16:resolve-root-dot", "a host name written with the trailing root dot does not resolve like the same name without it", map[string]string{"host": h + ".", "mask": itoa(mask), "got": gotDot, "want": want})
+				continue
+			}
 			if got != want {
 				v.Violate("failing-input", "c16:resolve", "host-to-realm resolution does not return the most specific matching mapping", map[string]string{"host": h, "mask": itoa(mask), "got": got, "want": want})
 				continue
